@@ -51,7 +51,7 @@ theorem extern_without_address_rejected (s : State) (m : G.Module) (path : Path)
 
 /-- the accessor emitted for an extern value: `get_<name>`, its visibility, the resolved type, the address -/
 theorem extern_accessor_emitted (x : XValue) (t : DTy) (h : x.ty = some t) :
-    Emit.xvalItem x = Sexp.mk "xaccessor" [Emit.visS x.vis, .str ("get_" ++ x.name), .str (Emit.tyStr t), .int x.addr] :=
+    Emit.xvalItem x = Sexp.mk "xaccessor" [Emit.visS x.vis, .str ("get_" ++ unraw x.name), .str (Emit.tyStr t), .int x.addr] :=
   extern_accessor_main x t h
 
 /-- the type of an extern value is resolved with the module's scope after all types are resolved, and
